@@ -156,6 +156,7 @@ def drive(ex, op_next, op_holder, max_out):
     while True:
         el = ex.call_function(op_next, [Ref(op_holder, 0)])
         out.append(el)
+        ex.env['last_output'] = out
         if el.variant == 'Terminate':
             return out
         if len(out) > max_out:
@@ -325,10 +326,14 @@ def native_operator(ex, kind, params, script, keyed=False):
     toks = txt.split()
     if toks and toks[-1] == 'OVERRUN':
         raise Violation('operator does not terminate on this input (native run overran)')
-    return [parse_token(t) for t in toks]
+    out = [parse_token(t) for t in toks]
+    ex.env['last_output'] = out
+    return out
 
 
 def native_manager(ex, kind, params, script):
     txt = native_run(ex, kind, params, script)
     calls = txt.split('|')
-    return [(i, [parse_token(t, True) for t in c.split()]) for i, c in enumerate(calls)]
+    res = [(i, [parse_token(t, True) for t in c.split()]) for i, c in enumerate(calls)]
+    ex.env['last_output'] = [r for _, rs in res for r in rs + [None]]
+    return res
